@@ -31,6 +31,9 @@ func genMetaSet(c *Chooser, n int) [][2]string {
 		default:
 			v = "AQIDBAUG/+8"
 		}
+		if c.Prob(0.08) {
+			v = longMetaValue(c)
+		}
 		out = append(out, [2]string{k, v})
 		if c.Prob(0.25) {
 			out = append(out, [2]string{k, v + "2"})
